@@ -689,10 +689,10 @@ def run(ctx):
     if ctx.quick():
         pool = int(os.environ.get("C08_POOL", "4")) if wn == 1 else 0
         grids = grid_list(ctx, [(1, 1), (1, 2), (2, 1), (1, 3), (3, 1), (2, 2), (2, 3), (3, 2)]) + \
-            [(10000 + i, g) for i, g in grid_list(ctx, [(3, 3)], sample=max(1, 80 // wn))]
+            [(10000 + i, g) for i, g in grid_list(ctx, [(3, 3)], sample=max(1, 600 // wn))]
         grids = [(k, g) for k, g in grids if k >= 10000 or ctx.mine(k)]
         shards = Shards(ctx, batch, impls, grids, 2, pool)
-        kernel_cases(ctx, batch, impls, 300 // wn, fixed=first)
+        kernel_cases(ctx, batch, impls, 500 // wn, fixed=first)
         unknown_id_cases(ctx, batch, impls, 150 // wn, fixed=first)
         remove_empty_cases(ctx, batch, impls, [(1, 3), (2, 2), (2, 3), (3, 2)], 150 // wn)
         if first:
